@@ -8,17 +8,17 @@
         sort_strings sz wl fuel mem l lcp = Some (out, lcp') ->
         SortedPerm l out /\ (wl = true -> LcpExact out lcp')
     and the same for radixsort_CE0/CE2/CE3/CI2/CI3, multikey_quicksort and insertion_sort at every depth with a common
-    prefix.  What is proved: the specification side completely (uniqueness, checker), insertion sort without LCP,
+    prefix.  What is proved: the specification side completely (uniqueness, checker),
     the 8-bit radix steps and loops with their LCP-at-bucket-boundary pass for every depth / stack level / memory
-    value, and the whole dispatch chain over every memory value -- relative to four named statements about single
-    loops of the model that are still open (C03_sort_strings_partial lists them as premises):
-      InsertionOK true   the LCP insertion sort (the variant without LCP is proved: C03_insertion_sort)
+    value, both insertion sorts (with the lcp array threaded through the LCP variant), and the whole dispatch chain
+    over every memory value -- relative to three named statements about single loops of the model that are still
+    open (C03_sort_strings_partial lists them as premises):
       MkqsOK             multikey quicksort (Bentley-Sedgewick partition loop + LCP writes)
       InPlaceOK          the cycle-leader permutation of RadixStep_CI2 groups the array by character
       Radix16OK          the 16-bit steps RadixStep_CE3 / CI3 (same argument as Radix8 with two levels of buckets)
     Each of these is exercised by the correspondence run on every check (model = implementation on object order). *)
 From Coq Require Import List NArith Sorting.Permutation Sorting.Sorted.
-From TLXV Require Import C03.Model C03.Spec C03.SpecProofs C03.Lemmas C03.Sorters C03.Radix8 C03.Dispatch.
+From TLXV Require Import C03.Model C03.Spec C03.SpecProofs C03.Lemmas C03.Sorters C03.LcpInsertion C03.Radix8 C03.Dispatch.
 Import ListNotations.
 
 (** Any two outputs satisfying SortedPermLcp for the same input have the same contents at every position and the
@@ -46,14 +46,14 @@ Print Assumptions C03_insertion_sort.
     depth, stack level, step size and memory value: sorted permutation, lcp[0] untouched, lcp[i] exact (i >= 1) --
     given that the sorters it hands small / memory-starved buckets to are correct. *)
 Theorem C03_radix8_partial : forall sz wl,
-  InsertionOK wl -> MkqsOK sz wl -> InPlaceOK ->
+  MkqsOK sz wl -> InPlaceOK ->
   forall fuel ip szstep mem s, SorterOK wl (fun d => r8_step sz wl fuel ip szstep mem s d).
-Proof. exact r8_step_ok. Qed.
+Proof. exact (fun sz wl => r8_step_ok sz wl (insertion_ok wl)). Qed.
 Print Assumptions C03_radix8_partial.
 
 (** The dispatch chain for every memory limit (the limit only selects the algorithm). *)
 Theorem C03_sort_strings_partial : forall sz wl,
-  InsertionOK wl -> MkqsOK sz wl -> InPlaceOK -> Radix16OK sz wl ->
+  MkqsOK sz wl -> InPlaceOK -> Radix16OK sz wl ->
   forall fuel mem l lcp out lcp',
     all_nulfree l -> length lcp = length l ->
     sort_strings sz wl fuel mem l lcp = Some (out, lcp') ->
@@ -63,23 +63,26 @@ Print Assumptions C03_sort_strings_partial.
 
 (** ... and for each selectable detail sorter of the chain, at every depth. *)
 Theorem C03_detail_sorters_partial : forall sz wl,
-  InsertionOK wl -> MkqsOK sz wl -> InPlaceOK -> Radix16OK sz wl ->
+  MkqsOK sz wl -> InPlaceOK -> Radix16OK sz wl ->
   forall fuel mem,
     SorterOK wl (fun d => radixsort_CE0 sz wl fuel mem d) /\ SorterOK wl (fun d => radixsort_CE2 sz wl fuel mem d) /\
     SorterOK wl (fun d => radixsort_CE3 sz wl fuel mem d) /\ SorterOK wl (fun d => radixsort_CI2 sz wl fuel mem d) /\
     SorterOK wl (fun d => radixsort_CI3 sz wl fuel mem d).
 Proof.
-  exact (fun sz wl a b c d fuel mem =>
-    conj (radixsort_CE0_ok sz wl a b c fuel mem) (conj (radixsort_CE2_ok sz wl a b c d fuel mem)
-    (conj (radixsort_CE3_ok sz wl a b c d fuel mem) (conj (radixsort_CI2_ok sz wl a b c fuel mem)
-          (radixsort_CI3_ok sz wl a b c d fuel mem))))).
+  exact (fun sz wl b c d fuel mem =>
+    conj (radixsort_CE0_ok sz wl b c fuel mem) (conj (radixsort_CE2_ok sz wl b c d fuel mem)
+    (conj (radixsort_CE3_ok sz wl b c d fuel mem) (conj (radixsort_CI2_ok sz wl b c fuel mem)
+          (radixsort_CI3_ok sz wl b c d fuel mem))))).
 Qed.
 Print Assumptions C03_detail_sorters_partial.
 
-(** The first premise is discharged for the variant without LCP output. *)
-Theorem C03_insertion_premise_nolcp : InsertionOK false.
-Proof. exact insertion_nolcp_ok. Qed.
-Print Assumptions C03_insertion_premise_nolcp.
+(** insertion_sort, both variants (without LCP; with the lcp array read and written as the code does), at every
+    depth: sorted permutation, lcp[0] untouched, lcp[i] exact for i >= 1. *)
+Theorem C03_insertion_sorts : forall wl p l lcp out lcp',
+  Pre p l -> all_nulfree l -> length lcp = length l ->
+  insertion wl (length p) l lcp = (out, lcp') -> OutOK wl l lcp out lcp'.
+Proof. exact (fun wl p l lcp out lcp' HP HN HL H => insertion_ok wl p l lcp out lcp' HP HN HL (f_equal Some H)). Qed.
+Print Assumptions C03_insertion_sorts.
 
 (** The LCP boundary loop as shipped (704fd0b) reads bkt_size[256] when every string ends at the current depth
     (40 empty strings); the repaired loop (fixes/C03/01) yields exactly their LCPs. *)
